@@ -89,6 +89,9 @@ def derived_line(f):
     if k == "M": return "%s MULTIPLY %s %s" % (f["name"], f["a"], f["b"])
     if k == "X": return "%s MPLEX %s %s %d %d" % (f["name"], f["in"], f["cnt"], f["cval"], f["period"])
     if k == "W": return "%s WINDOW %s %s %s %d" % (f["name"], f["in"], f["cnt"], f["op"], f["thr"])
+    if k == "N": return "%s LINCOM %d %s" % (f["name"], len(f["ins"]), " ".join("%s %d %d" % x for x in zip(f["ins"], f["ms"], f["bs"])))
+    if k == "D": return "%s DIVIDE %s %s" % (f["name"], f["a"], f["b"])
+    if k == "I": return "%s INDIR %s %s" % (f["name"], f["in"], f["carr"])
     raise ValueError(k)
 
 
@@ -98,7 +101,7 @@ def make_dirfile(d, case):
     if case.get("foff"):
         t += "/FRAMEOFFSET %d\n" % case["foff"]
     for r in case["raws"]:
-        t += "%s RAW %s %d\n" % (r["name"], r["type"], case.get("spf", 1))
+        t += "%s RAW %s %d\n" % (r["name"], r["type"], r.get("spf", case.get("spf", 1)))
         write_raw(d, case["enc"], r)
     dmg = case.get("damage")
     if dmg:
@@ -110,8 +113,12 @@ def make_dirfile(d, case):
         open(fp_, "wb").write(bytes(b))
     for name, v in case.get("consts", {}).items():
         t += "%s CONST INT64 %d\n" % (name, v)
+    for name, vs in case.get("carrays", {}).items():
+        t += "%s CARRAY INT64 %s\n" % (name, " ".join(str(v) for v in vs))
     for f in case.get("derived", []):
         t += derived_line(f) + "\n"
+    for l in case.get("extra_lines", []):       # fields that cannot be read (see gen_failing): literal format lines
+        t += l + "\n"
     open(os.path.join(d, "format"), "w").write(t)
 
 
@@ -368,6 +375,7 @@ def fresh_answers(exe, d, case, idxs, asks=None):
 def in_model(case, strict=True):
     if case["enc"] not in MODEL_ENC: return False
     if any(f["kind"] not in "PLBM" for f in case.get("derived", [])): return False
+    if case.get("mixed") or case.get("extra_lines"): return False
     if any(o[0] in "kxaC" for o in case["ops"]): return False
     if any(o[0] == "p" for o in case["ops"]) and case["enc"] != "none": return False     # writes: in-place encoding only
     if any(f.get("mc") or f.get("bc") for f in case.get("derived", [])): return False
@@ -687,9 +695,15 @@ def judge_spec(case, res):
     # documented) while the other is being positioned: no pointer claims for such fields
     limited = any(o[0] == "l" for o in case["ops"])
     multi = lambda f: limited and len(set(r for r, _ in sp.inputs(f))) > 1
+    broken = set(case.get("broken", []))
     for i, (o, (tok, opn)) in enumerate(zip(case["ops"], res)):
         got = impl_canon(tok)
         k = o[0]
+        if k in "gstebcf" and (o[1] in broken or (k == "g" and o[4] == "bad")):
+            # a call that cannot succeed (unreadable field / not a return type): it must fail, and that is all it does
+            fp = {}
+            if k == "g" and not got.startswith("E"): bad.append((i, "E (this read cannot succeed)", got))
+            continue
         if k == "g":
             f, st, n = o[1], o[2], o[3]
             exp = None
@@ -764,6 +778,30 @@ def shrink(exe, work, case, i, budget=80):
         if fails(trial): ops = trial
         else: k += 1
     return dict(case, ops=ops)
+
+
+def shrink_runs(exe, work, case, i):
+    """drop whole kinds of calls, then halve the runs, while op i still fails the same way"""
+    d = os.path.join(work, "shrinkf")
+    target = case["ops"][i]
+
+    def fails(ops_):
+        c = dict(case, ops=ops_)
+        make_dirfile(d, c)
+        _, _, res = run_impl(exe, d, c)
+        if len(res) != len(ops_): return False
+        b = judge_spec(c, res)
+        return bool(b) and b[0][0] == len(ops_) - 1
+    pre = list(case["ops"][:i])
+    for kind in sorted(set(str(o) for o in pre)):
+        trial = [o for o in pre if str(o) != kind]
+        if len(trial) < len(pre) and fails(trial + [target]): pre = trial
+    for _ in range(8):
+        trial = pre[len(pre) // 4:]
+        if trial != pre and fails(trial + [target]): pre = trial
+        else: break
+    while pre and fails(pre[1:] + [target]): pre = pre[1:]
+    return dict(case, ops=pre + [target])
 
 
 def compare_model(case, res, mout, opmap):
@@ -920,9 +958,341 @@ DAMAGE_WITNESS = dict(
          ("g", "a", 950, 70, "i64"), ("g", "a", 900, 5, "i64")])
 
 
+
+# ---------------------------------------------------------------- long runs of failing calls
+FAIL_KEY = "C02/failing-calls/later-call-depends-on-earlier-failures"
+# fields that exist but cannot be read, one per way a read can fail below the public call
+# (name, format lines, what fails)
+UNREADABLE = [
+    ("zbs", ["zbs LINCOM 1 r0 zznone 0"], "scalar parameter names a missing field (GD_E_BAD_SCALAR)"),
+    ("zbp", ["zbp PHASE r0 zznone"], "scalar shift names a missing field"),
+    ("zbb", ["zbb BIT r0 zznone 2"], "scalar bitnum names a missing field"),
+    ("zbr", ["zbr RECIP r0 zznone"], "scalar dividend names a missing field"),
+    ("zbq", ["zbq POLYNOM r0 1 zznone"], "scalar coefficient names a missing field"),
+    ("zbx", ["zbx MPLEX r0 r0 zznone 0"], "scalar count value names a missing field"),
+    ("zbw", ["zbw WINDOW r0 r0 EQ zznone"], "scalar threshold names a missing field"),
+    ("zbc", ["zbc PHASE zznone 1"], "input names a missing field (GD_E_BAD_CODE)"),
+    ("zbl", ["zbl LINCOM 2 r0 1 0 zznone 1 0"], "second input names a missing field"),
+    ("zbm", ["zbm MULTIPLY r0 zznone"], "second input names a missing field"),
+    ("zdm", ["zk CONST INT64 3", "zdm LINCOM 1 zk 1 0"], "input is a scalar (GD_E_DIMENSION)"),
+    ("zdi", ["zk2 CONST INT64 3", "zdi INDIR r0 zk2"], "INDIR over a CONST (GD_E_DIMENSION)"),
+    ("zlp", ["zlp PHASE zlq 0", "zlq PHASE zlp 1"], "field defined in terms of itself (GD_E_RECURSE_LEVEL)"),
+    ("zlt", ["zlt LINTERP r0 /nonexistent/zz/table"], "LINTERP table cannot be opened (GD_E_IO)"),
+    ("zmr", ["zmr RAW UINT8 1"], "RAW field without a data file (GD_E_IO)"),
+    ("zst", ["zst STRING hello"], "not a vector field (GD_E_BAD_FIELD_TYPE)"),
+    ("zznone", [], "no such field (GD_E_BAD_CODE)"),
+]
+
+
+def gen_failing(rng, runlen=(40, 80)):
+    """a healthy database with a deep derived chain + fields that cannot be read; long runs of ONE failing call
+    (every failure kind, through every public entry point) between reads of the healthy fields: what the
+    healthy fields return, and the library's recursion counter, must not depend on how many calls failed"""
+    case = gen_case(rng, encs=["none", "none", "gzip", "bzip2", "text"], model_only=True)
+    case["ops"] = [o for o in case["ops"] if o[0] != "l"][:rng.randint(0, 20)]
+    names = [r["name"] for r in case["raws"]]
+    depth = rng.randint(6, 29)
+    prev = rng.choice(names)
+    for j in range(depth):
+        nm = "q%d" % j
+        if rng.random() < 0.8: case["derived"].append(dict(name=nm, kind="P", shift=rng.choice([0, 0, 1, -1]), plain=True, **{"in": prev}))
+        else: case["derived"].append(dict(name=nm, kind="L", m=rng.choice([1, -1]), b=rng.randint(-2, 2), **{"in": prev}))
+        prev = nm
+    chosen = rng.sample(UNREADABLE, rng.randint(3, 7))
+    lines = []; broken = []
+    for nm, ls, _ in chosen:
+        lines += ls; broken.append(nm)
+        if ls and rng.random() < 0.4:
+            # the failure happens some levels down
+            w = nm
+            for lv in range(rng.randint(1, 4)):
+                w2 = "%sw%d" % (nm, lv); lines.append("%s PHASE %s %d" % (w2, w, rng.choice([0, 1]))); w = w2
+            broken.append(w)
+    case["extra_lines"] = lines
+    case["broken"] = broken + ["zznone"]
+    sp = Spec(case)
+    healthy = names + [f["name"] for f in case["derived"]]
+    deep = ["q%d" % (depth - 1), "q%d" % (depth // 2), "q0"]
+    ops = case["ops"]
+
+    def healthy_read():
+        f = rng.choice(deep + deep + healthy)
+        e = sp.eof(f); st = rng.randint(0, max(1, e)); n = rng.choice([1, 2, 5, 20])
+        ops.append(("g", f, st, n, "i64" if not sp.ok_type(f, st, n, "f64") or rng.random() < 0.5 else "f64"))
+
+    for _ in range(rng.randint(1, 3)):
+        b = rng.choice(case["broken"]); h = rng.choice(healthy)
+        form = rng.choice(["g", "g", "g", "s", "t", "e", "b", "c", "type", "range", "seekrange"])
+        if form == "g": call = ("g", b, rng.randint(0, 30), rng.choice([1, 3, 10]), rng.choice(["i64", "f64", "u8", "c128", "null"]))
+        elif form == "s": call = ("s", b, rng.randint(0, 30), "S")
+        elif form in "tebc": call = (form, b)
+        elif form == "type": call = ("g", h, rng.randint(0, 30), 3, "bad")
+        elif form == "range": call = ("g", h, -rng.randint(2, 9), 3, "i64")
+        else: call = ("s", h, -rng.randint(1, 9) - sp.eof(h), "S")
+        every = rng.choice([7, 11, 1000])
+        for k in range(rng.randint(*runlen)):
+            ops.append(call)
+            if k % every == every - 1: healthy_read()
+        ops.append(("r",))
+        for f in deep: ops.append(("g", f, rng.randint(0, max(1, sp.eof(f) - 3)), rng.choice([1, 4]), "i64"))
+        for _ in range(rng.randint(0, 4)): healthy_read()
+    case["ops"] = ops
+    return case
+
+
+# ---------------------------------------------------------------- inputs of different sample rates
+class MixSpec:
+    """whole-field contents when the inputs of a derived field have different samples per frame
+    (dirfile-format(5): the field has the rate of its FIRST input; sample k of it pairs with sample
+    floor(k * spf_i / spf_0) of input i).  Sample numbers are absolute, in the rate of the field asked."""
+
+    def __init__(self, case):
+        self.case = case
+        self.fo = case.get("foff", 0)
+        self.raw = {r["name"]: r for r in case["raws"]}
+        self.der = {f["name"]: f for f in case.get("derived", [])}
+        self.carr = case.get("carrays", {})
+        self.fl = False
+        self._spf = {}
+
+    def first(self, f):
+        g = self.der[f]
+        return g["ins"][0] if g["kind"] == "N" else g["a"] if g["kind"] in "MD" else g["in"]
+
+    def spf(self, f):
+        if f not in self._spf:
+            self._spf[f] = self.raw[f]["spf"] if f in self.raw else self.spf(self.first(f))
+        return self._spf[f]
+
+    def at(self, f, g, k):
+        """value of input g at the time of sample k of field f"""
+        return self.val(g, k * self.spf(g) // self.spf(f))
+
+    def val(self, f, k):
+        if f in self.raw:
+            i = k - self.fo * self.raw[f]["spf"]
+            if i < 0: return 0
+            v = self.raw[f]["vals"]
+            return v[i] if i < len(v) else None
+        g = self.der[f]; kd = g["kind"]
+        if kd == "P": return self.val(g["in"], k + g["shift"])
+        if kd == "L":
+            x = self.val(g["in"], k); return None if x is None else g["m"] * x + g["b"]
+        if kd == "B":
+            x = self.val(g["in"], k)
+            return None if x is None else ((x % (1 << 64)) >> g["bitnum"]) & ((1 << g["numbits"]) - 1)
+        if kd == "N":
+            tot = 0
+            for nm, m, b in zip(g["ins"], g["ms"], g["bs"]):
+                x = self.at(f, nm, k)
+                if x is None: return None
+                tot += m * x + b
+            return tot
+        if kd in "MD":
+            x = self.val(g["a"], k); y = self.at(f, g["b"], k)
+            if x is None or y is None: return None
+            if kd == "M": return x * y
+            if y == 0: return float("nan") if x == 0 or x != x else float("inf") * (1 if x > 0 else -1)
+            return x / y
+        if kd == "W":
+            x = self.val(g["in"], k); c = self.at(f, g["cnt"], k)
+            if x is None or c is None: return None
+            t = g["thr"]
+            ok = {"EQ": c == t, "NE": c != t, "GT": c > t, "LT": c < t, "GE": c >= t, "LE": c <= t}[g["op"]]
+            return x if ok else (float("nan") if self.fl else 0)
+        if kd == "X":
+            if self.val(g["in"], k) is None or self.at(f, g["cnt"], k) is None: return None
+            j = k
+            while j >= 0:
+                if self.at(f, g["cnt"], j) == g["cval"]: return self.val(g["in"], j)
+                j -= 1
+            return float("nan") if self.fl else 0
+        if kd == "I":
+            i = self.val(g["in"], k)
+            if i is None: return None
+            a = self.carr[g["carr"]]
+            return a[i] if 0 <= i < len(a) else 0
+        raise ValueError(kd)
+
+    def window(self, f, s, n):
+        out = []
+        for k in range(s, s + n):
+            v = self.val(f, k)
+            if v is None: break
+            out.append(v)
+        return out
+
+    def full(self, f, s, n):
+        """every input of every sample of the window exists (then the read must return all n samples)"""
+        return len(self.window(f, s, n)) == n
+
+    def kinds_below(self, f):
+        if f in self.raw: return set()
+        g = self.der[f]; kd = g["kind"]
+        ins = g["ins"] if kd == "N" else [g["a"], g["b"]] if kd in "MD" else [g["in"], g["cnt"]] if kd in "XW" else [g["in"]]
+        out = {kd}
+        for x in ins: out |= self.kinds_below(x)
+        return out
+
+    def mplex_multirate_below(self, f):
+        """an MPLEX whose index has another rate than its input, at or below f (C01 getdata/mplex-multirate)"""
+        if f in self.raw: return False
+        g = self.der[f]; kd = g["kind"]
+        if kd == "X" and self.spf(g["in"]) != self.spf(g["cnt"]): return True
+        ins = g["ins"] if kd == "N" else [g["a"], g["b"]] if kd in "MD" else [g["in"], g["cnt"]] if kd in "XW" else [g["in"]]
+        return any(self.mplex_multirate_below(x) for x in ins)
+
+    def carried(self, f, s, k):
+        """f is an MPLEX of mixed rates and sample k of a window starting at s is the value carried in from before
+        the window (no index match in [s, k]): the start value _GD_DoMplex looks back for (C01 getdata/mplex-multirate)"""
+        g = self.der.get(f)
+        if not g or g["kind"] != "X" or self.spf(g["in"]) == self.spf(g["cnt"]): return False
+        return all(self.at(f, g["cnt"], j) != g["cval"] for j in range(s, k + 1))
+
+    def ok_type(self, f, s, n, T):
+        """all values the library holds in the return type T while reading [s, s+n) of f are exact in T
+        (the first input is read in T, the others as FLOAT64; BIT/INDIR read their input as 64-bit integers)"""
+        self.fl = T in FLOAT_TYPES
+        res = self.window(f, s, n)
+        if not all(rep(v, T) if v == v and abs(v) != float("inf") else T in FLOAT_TYPES for v in res): return False
+        if any(v != int(v) for v in res if v == v and abs(v) != float("inf")) and T not in ("f64", "c128"): return False
+        if f in self.raw: return True
+        g = self.der[f]; kd = g["kind"]; m = len(res)
+        if kd == "P": return self.ok_type(g["in"], s + g["shift"], m, T)
+        if kd in "BI": return True
+        return self.ok_type(self.first(f), s, m, T)
+
+
+MIX_KEY = "C02/mixed-rate/sample-value-depends-on-the-window"
+MIX_SPEC_KEY = "C02/mixed-rate/value-differs-from-whole-field-contents"
+MIX_MPLEX_KEY = "C02/mplex/multirate-lookback-start-value"
+
+
+def gen_mixed(rng):
+    """multi-input derived fields (LINCOM 2/3, MULTIPLY, DIVIDE, MPLEX, WINDOW; INDIR, PHASE, BIT, LINCOM 1 over
+    them, nested) over RAW inputs of DIFFERENT samples per frame; reads with unaligned first samples, single
+    samples, overlapping windows: a sample has one value, alone or inside any window"""
+    enc = rng.choice(["none", "none", "gzip", "bzip2", "text", "lzma"])
+    nfr = rng.randint(5, 40)
+    foff = rng.choice([0, 0, 0, 1, 2])
+    rates = rng.sample([1, 2, 3, 4, 5, 6, 8, 12], rng.choice([2, 3, 3, 4]))
+    if rng.random() < 0.3: rates.append(rates[0])
+    raws = []
+    for i, sp in enumerate(rates):
+        t = rng.choice(["UINT8", "INT16", "INT32", "UINT16"])
+        lo, hi = (1, 200) if t[0] == "U" else (-90, 90)
+        n = nfr * sp
+        vals = [rng.randint(lo, hi) for _ in range(n)] if rng.random() < 0.6 else [lo + (k * 7 + i) % (hi - lo + 1) for k in range(n)]
+        raws.append(dict(name="r%d" % i, type=t, vals=vals, spf=sp))
+    ix = rng.randrange(len(raws))              # index field for MPLEX / WINDOW / INDIR: few values
+    raws[ix]["vals"] = [rng.randint(0, 3) for _ in raws[ix]["vals"]]; raws[ix]["type"] = "UINT8"
+    names = [r["name"] for r in raws]
+    carrays = {"ca": [rng.randint(-50, 50) for _ in range(rng.choice([4, 4, 3]))]}
+    derived = []
+    for j in range(rng.randint(2, 6)):
+        pool = names + [f["name"] for f in derived if f["kind"] not in "XWD"]
+        kd = rng.choice("NNNNMMDXWIPLB")
+        nm = "m%d" % j
+        pick = lambda: rng.choice(pool)
+        if kd == "N":
+            k = rng.choice([2, 3, 3])
+            derived.append(dict(name=nm, kind="N", ins=[pick() for _ in range(k)], ms=[rng.choice([-2, -1, 1, 2, 3]) for _ in range(k)],
+                                bs=[rng.randint(-4, 4) for _ in range(k)]))
+        elif kd == "M": derived.append(dict(name=nm, kind=kd, a=pick(), b=pick()))
+        # DIVIDE by a RAW field only: a derived zero may be -0 and the sign of x/-0 is not a matter of which samples pair up
+        elif kd == "D": derived.append(dict(name=nm, kind=kd, a=pick(), b=rng.choice(names)))
+        elif kd == "X":
+            # not over a PHASE: the look-back's re-seek through a forward shift fails with GD_E_RANGE
+            # (C01 getdata/mplex-lookback-reseek-range-error, root C17/phase/pointer-shift-applied-with-wrong-sign)
+            tmp = MixSpec(dict(foff=foff, raws=raws, derived=derived))
+            derived.append(dict(name=nm, kind="X", cnt=names[ix], cval=rng.randint(0, 3), period=0,
+                                **{"in": rng.choice([x for x in pool if "P" not in tmp.kinds_below(x)])}))
+        elif kd == "W": derived.append(dict(name=nm, kind="W", cnt=pick(), op=rng.choice(["EQ", "NE", "GT", "LT", "GE", "LE"]),
+                                            thr=rng.choice([0, 1, 2, 50]), **{"in": pick()}))
+        elif kd == "I": derived.append(dict(name=nm, kind="I", carr="ca", **{"in": names[ix]}))
+        elif kd == "P": derived.append(dict(name=nm, kind="P", shift=rng.choice([-3, -1, 1, 2, 5]), **{"in": pick()}))
+        elif kd == "L": derived.append(dict(name=nm, kind="L", m=rng.choice([-3, -1, 2]), b=rng.randint(-5, 5), **{"in": pick()}))
+        elif kd == "B": derived.append(dict(name=nm, kind="B", bitnum=rng.randint(0, 3), numbits=rng.randint(1, 5), **{"in": rng.choice(names)}))
+    case = dict(enc=enc, foff=foff, raws=raws, derived=derived, carrays=carrays, mixed=True)
+    sp = MixSpec(case)
+    multi = [f["name"] for f in derived if f["kind"] in "NMDXW"] or [derived[-1]["name"]]
+    ops = [("k", -1)] if any(f["kind"] == "X" for f in derived) else []
+
+    def rd(f, s, n):
+        fragile = sp.kinds_below(f) & set("DXW")
+        cand = ["f64"] if fragile else [T for T in ("f64", "i64", "i32", "f32", "c128", "i16", "u16", "u64") if sp.ok_type(f, s, n, T)] or ["f64"]
+        ops.append(("g", f, s, n, rng.choice(cand)))
+
+    for _ in range(rng.randint(6, 30)):
+        f = rng.choice(multi if rng.random() < 0.8 else names + [x["name"] for x in derived])
+        q = sp.spf(f); last = (foff + nfr) * q
+        u = rng.random()
+        if u < 0.75:
+            s = rng.choice([rng.randint(0, last), rng.randint(0, last), foff * q + rng.randint(0, 3 * q), max(0, last - rng.randint(1, 3 * q))])
+            n = rng.choice([1, 1, 1, 2, 3, q, q + 1, 2 * q + 1, 20, 70])
+            rd(f, s, n)
+            if rng.random() < 0.5:
+                # the same samples again: alone, and inside a window that starts somewhere else
+                k = s + rng.randrange(n)
+                if rng.random() < 0.5: ops.append((rng.choice("cf"), "*"))
+                rd(f, k, 1)
+                s2 = max(0, k - rng.randint(0, 2 * q + 1)); rd(f, s2, k - s2 + rng.randint(1, q + 2))
+        elif u < 0.85: ops.append(("s", f, rng.randint(0, last), "S"))
+        elif u < 0.95: ops.append(("g", f, "H", rng.choice([1, 2, 5]), "f64"))
+        else: ops.append((rng.choice("cf"), rng.choice([f, "*"])))
+    case["ops"] = ops
+    return case
+
+
+def judge_mixed(case, res):
+    """[(op index, expected, got, key)]: every absolute read against MixSpec; and, whatever the oracle says,
+    one (field, return type, sample) never has two values in one history"""
+    sp = MixSpec(case)
+    seen = {}
+    bad = []
+    for i, (o, (tok, _)) in enumerate(zip(case["ops"], res)):
+        if o[0] != "g" or o[2] == "H" or tok[0] != "g": continue
+        f, s, n, T = o[1], o[2], o[3], o[4]
+        got = impl_canon(tok)
+        if got.startswith("E") or got == "OVERRUN":
+            bad.append((i, "data", got, MIX_SPEC_KEY)); continue
+        vals = got.split()[1:]
+        for j, v in enumerate(vals):
+            if sp.carried(f, s, s + j): continue       # judged against the oracle below, under the listed finding's key
+            prev = seen.setdefault((f, T, s + j), (v, i))
+            if prev[0] != v:
+                bad.append((i, "sample %d = %s as in op %d %s" % (s + j, prev[0], prev[1], case["ops"][prev[1]]), "sample %d = %s" % (s + j, v), MIX_KEY))
+                break
+        if sp.ok_type(f, s, n, T):
+            sp.fl = T in FLOAT_TYPES
+            w = sp.window(f, s, n)
+            # how many samples a window reaching the last frames of its slower inputs returns is property C16's
+            # business (the library rounds the inputs' extents down): the count is judged only when the field
+            # goes on for two more frames, otherwise the samples returned are compared (never more than exist)
+            if sp.full(f, s, n + 2 * sp.spf(f) + 6): m = n; gv = vals
+            else: m = min(len(w), len(vals)); gv = vals[:m] if len(vals) <= len(w) else vals
+            ev = [fmtm(v) for v in w[:m]]
+            if ev != gv:
+                diff = [j for j in range(max(len(ev), len(gv))) if j >= len(ev) or j >= len(gv) or ev[j] != gv[j]]
+                only_start = all(sp.carried(f, s, s + j) for j in diff)
+                bad.append((i, "D " + " ".join(ev), "D " + " ".join(gv), MIX_MPLEX_KEY if only_start else MIX_SPEC_KEY))
+    bad.sort(key=lambda b: b[0])
+    return bad
+
+
+def fmtm(v):
+    if v != v: return "nan"
+    if abs(v) == float("inf"): return "inf" if v > 0 else "-inf"
+    if v == int(v) and abs(v) < 9e15: return str(int(v))
+    return "%.17g" % v
+
+
 def load_staged_known(chk):
     """vlib.load_known reads known_findings.d/*.json itself now; kept as a no-op for C17.py"""
     return
+
+
+UNBALANCED = []     # exits that leave D->recurse_level incremented (translator scan of every counting function)
 
 
 def read_cfg():
@@ -934,6 +1304,7 @@ def read_cfg():
         if l.startswith("FLAG "):
             _, k, v = l.split(); cfg[k] = (v == "true")
         if l.startswith("PROBLEM"): problems.append(l)
+        if l.startswith("UNBALANCED"): UNBALANCED.append(l)
     return rc, cfg, problems
 
 
@@ -948,7 +1319,7 @@ def main():
         "hand-written model coq/C02/Model.v of raw.c, gzip.c (zlib contract: gzseek/gzread address the decoded stream), bzip.c, ascii.c, "
         "_GD_DoRaw/_GD_DoField/_GD_GetIOPos/_GD_Seek/_GD_Flush; validated against the compiled library on every run",
         "libbz2 as a section variable `dec` with the contract dec_ok (delivers the next <= BUF bytes of the stream, BZ_OK only with a full buffer)",
-        "translate/tr_c02cfg.py (regex recognition of six repair sites; a wrong flag shows up as a correspondence disagreement)",
+        "translate/tr_c02cfg.py (regex recognition of the repair sites; a wrong flag shows up as a correspondence disagreement; textual scan that every exit of a recursion-counting function undoes the count)",
         "extraction: ExtrOcamlBasic only; OCaml driver ocaml/C02/driver.ml; harness harness/C02/gdhist.c; H1 hook buffer sizes 64/64/64/16",
         "specification oracle: class Spec in checks/C02.py (whole-field contents by absolute sample number) and spec_window extracted from Coq",
     ]
@@ -1127,6 +1498,53 @@ def main():
                       {"kind": "model-vs-impl", "case": case, "op_index": i, "impl": got, "model": m0,
                        "theorem": "bz_read/bz_seek error exits of coq/C02/Model.v (dec_bz2_crc) no longer describe bzip.c"}, found=False)
 
+    # ---- 2d. inputs of different sample rates: one value per sample, alone or inside any window
+    nmix = 300 if not chk.thorough else 8000
+    mixed_bad = {}
+    nm_multi = 0
+    for k in range(nmix):
+        case = gen_mixed(rng)
+        dd = os.path.join(work, "mix"); make_dirfile(dd, case)
+        rc1, out, res = run_impl(exe, dd, case)
+        evals += len(res)
+        if len(res) != len(case["ops"]):
+            mixed_bad.setdefault(MIX_SPEC_KEY, (case, len(res), "an answer", "process died rc=%d: %s" % (rc1, out[-200:].replace("\n", " "))))
+            continue
+        nm_multi += sum(1 for o in case["ops"] if o[0] == "g" and o[2] != "H")
+        for i, exp, got, key in judge_mixed(case, res)[:1]:
+            mixed_bad.setdefault(key, (case, i, exp, got))
+    chk.cov["mixed_rate_histories"] = nmix
+    chk.cov["mixed_rate_reads_judged"] = nm_multi
+    for key, (case, i, exp, got) in mixed_bad.items():
+        found_any = True
+        c2 = dict(case, ops=case["ops"][:i + 1])
+        chk.violation(key, "%s: fields %s over RAWs of %s samples per frame (%s): op %d %s returns %s, expected %s" % (
+            key, [derived_line(f) for f in case["derived"]], [r["spf"] for r in case["raws"]], case["enc"], i,
+            case["ops"][i] if i < len(case["ops"]) else "", got[:100], exp[:100]),
+            {"kind": "impl-vs-spec", "spec": "MixSpec (dirfile-format(5): sample k pairs with sample floor(k*spf_i/spf_0) of input i) / one value per sample",
+             "case": c2, "op_index": i, "expected": exp, "got": got, "how": "checks/C02.py make_dirfile + harness/C02/gdhist.c"})
+
+    # ---- 2e. long runs of one failing call (every failure kind) between reads of healthy, deeply derived fields
+    nfail = 100 if not chk.thorough else 2500
+    fail_bad = None
+    for k in range(nfail):
+        case = gen_failing(rng)
+        dd = os.path.join(work, "fail"); make_dirfile(dd, case)
+        rc1, out, res = run_impl(exe, dd, case)
+        evals += len(res)
+        b = judge_spec(case, res) if len(res) == len(case["ops"]) else [(len(res), "an answer", "process died rc=%d: %s" % (rc1, out[-200:].replace("\n", " ")))]
+        if b and fail_bad is None: fail_bad = (case, b[0])
+    chk.cov["failing_run_histories"] = nfail
+    if fail_bad:
+        case, (i, exp, got) = fail_bad
+        found_any = True
+        small = shrink_runs(exe, work, case, i)
+        chk.violation(FAIL_KEY, "%s: after %d failing calls (%s) op %s returns %s, expected %s; unreadable fields: %s" % (
+            FAIL_KEY, sum(1 for o in small["ops"][:-1] if o[0] in "gstebc" and (o[1] in case["broken"] or o[-1] == "bad")),
+            sorted(set(str(o) for o in small["ops"][:-1]))[:3], small["ops"][-1], got[:100], exp[:100], case["extra_lines"]),
+            {"kind": "impl-vs-spec", "case": small, "op_index": len(small["ops"]) - 1, "expected": exp, "got": got,
+             "how": "checks/C02.py make_dirfile + harness/C02/gdhist.c"})
+
     # ---- 3. decide
     reported = set()
     for case, res, bad in spec_bad.values():
@@ -1193,6 +1611,12 @@ def main():
                           i, case["ops"][i], got[:100], m0[:100]),
                       {"kind": "model-vs-impl", "case": case, "op_index": i, "impl": got, "model": m0,
                        "theorem": "mplex_read of coq/C02/MplexCache.v no longer describes _GD_DoMplex"}, found=False)
+    if UNBALANCED:
+        chk.notes.append("translator: " + "; ".join(UNBALANCED[:4]))
+        if not found_any:
+            chk.violation("C02/recurse-level/exit-without-decrement", "an exit of a recursion-counting function does not undo ++D->recurse_level "
+                          "(every failing call through it eats one of the 32 levels for good): " + "; ".join(UNBALANCED[:4]),
+                          {"kind": "translator", "problems": UNBALANCED}, found=False)
     if trans_problems and not found_any:
         chk.violation("translator", "tr_c02cfg.py cannot recognise the code: " + "; ".join(trans_problems[:3]),
                       {"kind": "translator", "problems": trans_problems}, found=False)
